@@ -377,6 +377,7 @@ impl Check for C19 {
         let mut rng = Rng::for_case(ctx.seed, "C19", idx);
         let n = 1 + rng.usize(4);
         let mut entries = Vec::new();
+        let mut seen_accounts: Vec<String> = Vec::new();
         for k in 0..n {
             let header = match rng.below(4) {
                 0 => format!("2024/01/{:02} * (c{}) Payee {}", 1 + k, k, k),
@@ -390,7 +391,18 @@ impl Check for C19 {
                 entries.push((c.to_string(), vec![], vec![]));
             }
             let np = 1 + rng.usize(4);
-            let posts: Vec<PostingSpec> = (0..np).map(|_| gen_posting(&mut rng)).collect();
+            let mut posts: Vec<PostingSpec> = (0..np).map(|_| gen_posting(&mut rng)).collect();
+            // an account may come back in a later posting, with or without the same clear mark
+            if let Some(prev) = seen_accounts.last().cloned() {
+                if rng.chance(1, 4) {
+                    let k = rng.usize(posts.len());
+                    posts[k].account = prev;
+                    posts[k].mark = *rng.pick(&["", "* ", "! "]);
+                }
+            }
+            for p in &posts {
+                seen_accounts.push(p.account.clone());
+            }
             let txn_meta = if rng.chance(1, 5) { vec!["txn note".to_string()] } else { vec![] };
             entries.push((header, posts, txn_meta));
         }
